@@ -658,6 +658,124 @@ Proof.
         apply fstep_base; [exact Hr | exact Ha | split; intros; discriminate | intros m _; apply Hnodead | apply Hov | exact Hs].
 Qed.
 
+Lemma mtb_needs_mtrdy st k st' : step g c st (MtB k) = Some st' -> ph st k = MtRdy.
+Proof.
+  unfold step. destruct (returned st); [discriminate|]. destruct (ph st k); try discriminate. reflexivity.
+Qed.
+
+Lemma active_enabled_m2 st n : Inv st -> P1 st -> P2 st -> P3 st -> P4 st -> returned st = None ->
+  active_ph (ph st n) = true ->
+  exists e st', plain_event e /\ ev_node e = Some n /\ (forall k, e <> MtB k) /\ step g c st e = Some st'.
+Proof.
+  intros I H1 H2 H3 H4 Hret Ha.
+  assert (Hor : ph st n = MtRdy \/ ph st n <> MtRdy).
+  { destruct (ph st n); try (right; discriminate); left; reflexivity. }
+  destruct Hor as [Hp|Hp].
+  - exists (Cb CPre n). eexists. split; [split; intros; discriminate|]. split; [reflexivity|].
+    split; [intros k; discriminate|]. unfold step, cb_next. rewrite Hret, Hp. reflexivity.
+  - destruct (active_enabled_m st n I H1 H2 H3 H4 Hret Ha) as [e [st' [A [B C]]]].
+    exists e. exists st'. split; [exact A|]. split; [exact B|]. split; [|exact C].
+    intros k Hk. subst e. cbn [ev_node] in B. injection B as ->. apply Hp. eapply mtb_needs_mtrdy; eauto.
+Qed.
+
+(* the same with a witness that is never a further Mount attempt (MtB): at MtRdy the witness is PreCopy
+   ("no candidate left: copy"), so that a potential function decreases along the witnesses *)
+Lemma fprogress_state_m2 fs : Inv (fb fs) -> P1 (fb fs) -> P2 (fb fs) -> P3 (fb fs) -> P4 (fb fs) -> Wv (fb fs) ->
+  returned (fb fs) = None ->
+  exists e fs', is_fault (Ev e) = false /\ (forall k, e <> MtB k) /\ fstep g c ext fs (Ev e) = Some fs'.
+Proof.
+  intros I H1 H2 HP3 HP4 Hw Hr.
+  destruct (tainted g fs) eqn:Ht.
+  { exists (Ret false). eexists. split; [reflexivity|]. split; [intros k; discriminate|]. now apply fret_err_enabled. }
+  assert (Hel : f_cancelled fs = false /\ f_aborted fs = false /\ any_dead g (fb fs) = false).
+  { unfold tainted in Ht. apply orb_false_iff in Ht as [Ht H3]. apply orb_false_iff in Ht as [Hc Ha]. auto. }
+  destruct Hel as [Hc [Ha Hnd]].
+  set (st := fb fs) in *.
+  assert (Hnodead : forall n, ph st n <> Dead).
+  { intros n Hd. assert (Hn : n < g_n g) by (apply (i_bound _ _ _ st I); congruence).
+    rewrite (any_dead_intro g st n Hn Hd) in Hnd. discriminate. }
+  assert (Hout : forall n, g_n g <= n -> ph st n = Idle).
+  { intros n Hn. destruct (ph st n) eqn:E; auto; exfalso;
+      assert (n < g_n g) by (apply (i_bound _ _ _ st I); rewrite E; discriminate); lia. }
+  (* 1. an active task *)
+  destruct (find (fun n => active_ph (ph st n)) (seq 0 (g_n g))) as [n|] eqn:Ef.
+  { apply find_some in Ef as [Hin Hact].
+    destruct (active_enabled_m2 st n I H1 H2 HP3 HP4 Hr Hact) as [e [st' [Hpl [Hnode [HnoB Hs]]]]].
+    exists e. exists (with_base fs st'). split.
+    - destruct Hpl as [Hcf _]. destruct e; try reflexivity. exfalso. eapply Hcf. reflexivity.
+    - split; [exact HnoB|]. apply fstep_base; [exact Hr | exact Ha | exact Hpl | | | exact Hs].
+      + intros m Hm. apply Hnodead.
+      + apply (virt_event_node n); auto. unfold virt.
+        destruct (Bool.bool_dec ext true) as [Hext|Hext]; [|apply Bool.not_true_is_false in Hext; rewrite Hext; reflexivity].
+        rewrite Hext. cbn [andb]. apply Nat.eqb_neq. intro E. subst n.
+        pose proof (Hw Hext) as Hwv. unfold st in *. rewrite Hwv in Hact. discriminate. }
+  assert (Q : quiet st).
+  { intros n. split; [|apply Hnodead].
+    destruct (Nat.lt_ge_cases n (g_n g)) as [Hn|Hn].
+    - apply (find_none_all _ _ Ef). apply in_seq. lia.
+    - now rewrite (Hout n Hn). }
+  (* 2. a waiting real node *)
+  destruct (find (fun n => is_waiting (ph st n) && negb (virt n)) (seq 0 (g_n g))) as [n|] eqn:Ew.
+  { apply find_some in Ew as [Hin Hwn]. apply andb_true_iff in Hwn as [Hwn Hvn]. apply negb_true_iff in Hvn.
+    assert (Hp : ph st n = Waiting) by (destruct (ph st n); simpl in Hwn; congruence).
+    destruct (waiting_enabled_m st I Hr Q (S (rank n)) n (Nat.lt_succ_diag_r _) Hp Hvn) as [e [st' [m [Hpl [Hnode [Hvm Hs]]]]]].
+    exists e. exists (with_base fs st'). split.
+    - destruct Hpl as [Hcf _]. destruct e; try reflexivity. exfalso. eapply Hcf. reflexivity.
+    - split; [intros k Hk; subst e; cbn [ev_node] in Hnode; injection Hnode as ->;
+               pose proof (mtb_needs_mtrdy _ _ _ Hs) as Hq; destruct (Q m) as [Hqa _]; rewrite Hq in Hqa; discriminate|].
+      apply fstep_base; [exact Hr | exact Ha | exact Hpl | | | exact Hs].
+      + intros m' Hm. apply Hnodead.
+      + apply (virt_event_node m); auto. }
+  assert (Hreal : forall n, virt n = false -> ph st n = Idle \/ ph st n = Done).
+  { intros n Hv. destruct (quiet_cases st n Q) as [Hi|[Hwt|Hd]]; auto. exfalso.
+    assert (Hn : n < g_n g) by (apply (i_bound _ _ _ st I); congruence).
+    assert (Hin : In n (seq 0 (g_n g))) by (apply in_seq; lia).
+    pose proof (find_none_all _ _ Ew n Hin) as Hf. cbv beta in Hf. rewrite Hwt, Hv in Hf. discriminate. }
+  (* 3. only roots are left to dispatch, or the call returns *)
+  destruct (Bool.bool_dec ext true) as [Hext|Hext]; [|apply Bool.not_true_is_false in Hext].
+  - (* ExtendedCopyGraph: the virtual root waits *)
+    pose proof (Hw Hext) as Hwv. fold st in Hwv.
+    destruct (forallb (fun r => is_done (ph st r)) (succ' g (c_root c))) eqn:Ed.
+    + exists (Ret true). eexists. split; [reflexivity|]. split; [intros k; discriminate|].
+      unfold fstep. fold st. rewrite Hr, Ht. cbn [negb andb]. unfold ret_ok_guard. rewrite Hext, Hwv, Ed. cbn [is_waiting andb].
+      assert (Eall : forallb (fun n => Nat.eqb n (c_root c) || is_idle_or_done (ph st n)) (seq 0 (g_n g)) = true).
+      { apply forallb_forall. intros n _. destruct (Nat.eqb n (c_root c)) eqn:En; [reflexivity|]. cbn [orb].
+        destruct (Hreal n) as [Hi|Hd]; [unfold virt; rewrite Hext, En; reflexivity | rewrite Hi; reflexivity | rewrite Hd; reflexivity]. }
+      rewrite Eall. reflexivity.
+    + destruct (forallb_false_ex _ _ Ed) as [x [Hx Hxd]].
+      assert (Hvx : virt x = false).
+      { unfold virt. rewrite Hext. cbn [andb]. apply Nat.eqb_neq. intro E. subst x. exact (virt_nopred Hext _ Hx). }
+      destruct (Hreal x Hvx) as [Hi|Hd]; [|rewrite Hd in Hxd; discriminate].
+      destruct (exb_enabled st x Hr Q Hi (succ_in _ x root_in Hx)) as [st' Hs].
+      { unfold dispatched. apply orb_true_iff. right. apply existsb_exists. exists (c_root c). split.
+        - apply in_seq. lia.
+        - rewrite Hwv. cbn [is_waiting andb]. now apply memb_In. }
+      exists (ExB x). exists (with_base fs st'). split; [reflexivity|]. split; [intros k; discriminate|].
+      apply fstep_base; [exact Hr | exact Ha | split; intros; discriminate | | | exact Hs].
+      * intros m _. apply Hnodead.
+      * unfold on_virtual. cbn [ev_node]. exact Hvx.
+  - (* CopyGraph / Copy *)
+    assert (Hv0 : forall n, virt n = false) by (intro n; unfold virt; rewrite Hext; reflexivity).
+    assert (Hov : forall e, on_virtual c ext e = false) by (intro e; unfold on_virtual; rewrite Hext; reflexivity).
+    destruct (Hreal (c_root c) (Hv0 _)) as [Hi|Hd].
+    + destruct (exb_enabled st (c_root c) Hr Q Hi root_in) as [st' Hs].
+      { unfold dispatched, is_root. rewrite Nat.eqb_refl. reflexivity. }
+      exists (ExB (c_root c)). exists (with_base fs st'). split; [reflexivity|]. split; [intros k; discriminate|].
+      apply fstep_base; [exact Hr | exact Ha | split; intros; discriminate | intros m _; apply Hnodead | apply Hov | exact Hs].
+    + destruct (forallb (fun r => is_done (ph st r)) (c_xroots c)) eqn:Ex.
+      * exists (Ret true). eexists. split; [reflexivity|]. split; [intros k; discriminate|].
+        unfold fstep. fold st. rewrite Hr, Ht. cbn [negb andb]. unfold ret_ok_guard. rewrite Hext, Hd, Ex. cbn [is_done andb].
+        assert (Eall : forallb (fun n => is_idle_or_done (ph st n)) (seq 0 (g_n g)) = true).
+        { apply forallb_forall. intros n _. destruct (Hreal n (Hv0 n)) as [Hi|Hd']; [rewrite Hi | rewrite Hd']; reflexivity. }
+        rewrite Eall. reflexivity.
+      * destruct (forallb_false_ex _ _ Ex) as [x [Hx Hxd]].
+        destruct (Hreal x (Hv0 x)) as [Hi|Hd']; [|rewrite Hd' in Hxd; discriminate].
+        destruct (exb_enabled st x Hr Q Hi (xroots_in x Hx)) as [st' Hs].
+        { unfold dispatched. apply orb_true_iff. left. apply orb_true_iff. right. now apply memb_In. }
+        exists (ExB x). exists (with_base fs st'). split; [reflexivity|]. split; [intros k; discriminate|].
+        apply fstep_base; [exact Hr | exact Ha | split; intros; discriminate | intros m _; apply Hnodead | apply Hov | exact Hs].
+Qed.
+
 (* ... at every state reached by an accepted trace (Mounter destinations included; content keys injective) *)
 Theorem fprogress_m tr fs : ext_ok g c ext d0 ->
   faccepts g c ext d0 tr = Some fs -> returned (fb fs) = None ->
